@@ -201,9 +201,7 @@ func VerifC04Flatten() {
 	verif.Show("unmarshal-error", uerr != nil)
 	ok := verif.And(uerr == nil, back.Id == m.Id, smallV(back.Addr) == smallV(m.Addr))
 	if m.Addr != nil && m.Addr.V != "" {
-		verif.Expect("KF-C04-flatten-decoder-loses-the-flattened-child", ok)
-		verif.Reach("C04/flatten/kf-child-lost")
-		return
+		verif.Reach("C04/flatten/child-non-default") // region of the decoder defect repaired in b096e46
 	}
 	verif.Assert("C04/flatten/round-trip", ok)
 	verif.Reach("C04/flatten/decided")
